@@ -7,10 +7,10 @@ from geom import fd_glyphs_json
 from ufo import build, rat
 
 ID = "C02"
-PROOF_FILES = ["Geom", "Reverse", "Render", "Flatten", "GoodCert", "C02", "C02Skip", "C02Drop"]
+PROOF_FILES = ["Geom", "Reverse", "Render", "Flatten", "GoodCert", "C02", "C02Skip", "C02Drop", "TotalGeom", "TotalFilters", "TotalFilters2", "Total"]
 THEOREM = ("Ufo2ft.C02.C02_mixed / C02_render / C02_render_skip / C02_mixed_skip / C02_flatten / C02_points_perm / depth facts (+ shared geometry theorems); "
            "dropImpliedOnCurves: C02_drop_render / C02_drop_idempotent / C02_drop_round / C02_drop_round_bound / C02_drop_spec / "
-           "C02_drop_joint_compatible / C02_drop_joint_subset / C02_drop_joint_maximal / C02_drop_joint_instance / C02_drop_joint_spec")
+           "C02_drop_joint_compatible / C02_drop_joint_subset / C02_drop_joint_maximal / C02_drop_joint_instance / C02_drop_joint_spec; TOTALITY (Props/Total*.lean): C02_preprocess_ok / C02_mixed_total / C02_render_total / C02_render_skip_total - the pre-processing chain returns a result on every well-formed closed glyph set (wfCert)")
 N = {"quick": 160, "thorough": 3000}
 RULE = ("random fonts (line / quadratic contours incl. contours starting off-curve, open contours; component graphs depth<=4 with "
         "F2Dot14-exact matrices incl. mirrors/shears, half-integer offsets; mixed glyphs; shared bases/diamonds) x {convertCubics, "
